@@ -453,9 +453,10 @@ impl Parser {
             // for <pattern> in <binding> { <body> }
             let pattern = self.parse_pattern()?;
             self.expect(&TokenEnum::KeywordIn)?;
+            let struct_literals_allowed = self.struct_literals_allowed;
             self.struct_literals_allowed = false;
             let binding = self.parse_expr()?;
-            self.struct_literals_allowed = true;
+            self.struct_literals_allowed = struct_literals_allowed;
             self.expect(&TokenEnum::LeftBrace)?;
             let loop_body = self.parse_stmts()?;
             let meta_end = self.expect(&TokenEnum::RightBrace)?;
@@ -613,6 +614,16 @@ impl Parser {
     }
 
     fn parse_stmts(&mut self) -> Result<Vec<UntypedStmt>, ()> {
+        // inside the braces of a block struct literals are unambiguous again, whatever condition
+        // or scrutinee encloses the block
+        let struct_literals_allowed = self.struct_literals_allowed;
+        self.struct_literals_allowed = true;
+        let stmts = self.parse_stmts_of_block();
+        self.struct_literals_allowed = struct_literals_allowed;
+        stmts
+    }
+
+    fn parse_stmts_of_block(&mut self) -> Result<Vec<UntypedStmt>, ()> {
         let mut stmts = vec![];
         let mut has_error = false;
         while self.tokens.peek().is_some()
@@ -857,9 +868,10 @@ impl Parser {
     fn parse_if_or_match(&mut self) -> Result<UntypedExpr, ()> {
         if let Some(meta) = self.next_matches(&TokenEnum::KeywordIf) {
             // if <cond> { <then> } else [if { <else-if> } else]* { <else> }
+            let struct_literals_allowed = self.struct_literals_allowed;
             self.struct_literals_allowed = false;
             let cond_expr = self.parse_expr()?;
-            self.struct_literals_allowed = true;
+            self.struct_literals_allowed = struct_literals_allowed;
             self.expect(&TokenEnum::LeftBrace)?;
 
             if let Ok(then_expr) = self.parse_block_as_expr() {
@@ -916,9 +928,10 @@ impl Parser {
             }
         } else if let Some(meta) = self.next_matches(&TokenEnum::KeywordMatch) {
             // match <match_expr> { <clause> * }
+            let struct_literals_allowed = self.struct_literals_allowed;
             self.struct_literals_allowed = false;
             let match_expr = self.parse_expr()?;
-            self.struct_literals_allowed = true;
+            self.struct_literals_allowed = struct_literals_allowed;
             self.expect(&TokenEnum::LeftBrace)?;
 
             let mut has_failed = false;
